@@ -8,7 +8,7 @@ from . import common, project, tlc
 from .common import Result, Violation
 
 SYMS = ["2", "3", "x", "y", "+", "-", "*", "/", "^", "!", "(", ")", "=", "sgn"]
-C03_CLAUSES = {"accepts_underivable", "rejects_derivable", "value", "operands", "vars", "repeat_differs"}
+C03_CLAUSES = {"accepts_underivable", "rejects_derivable", "value", "operands", "vars", "repeat_differs", "long_lived_parser_differs"}
 C10_CLAUSES = {"error_contract", "unsupported_char_not_valueerror", "result_not_expression", "hang"}
 
 
@@ -44,6 +44,30 @@ def _spells_fn(tokens, k):
     return "sgn" in "".join(tokens[j:e])
 
 
+_SHARED = {}
+
+
+def shared_parse_same(text, outcome, term):
+    """the same text on a long-lived parser of this worker process that has already seen thousands of other texts -
+    and, just before, look-alikes of this one (blanks removed, lower-cased) - must behave as on the fresh parser"""
+    from mathy_core.parser import ExpressionParser
+    p = _SHARED.get("p")
+    if p is None or _SHARED["n"] > 4000:
+        p = _SHARED["p"] = ExpressionParser()
+        _SHARED["n"] = 0
+    _SHARED["n"] += 1
+    for alike in {text.replace(" ", ""), text.lower(), text.replace(" ", "").lower()} - {text}:
+        try:
+            p.parse(alike)
+        except BaseException:  # noqa
+            pass
+    try:
+        t = p.parse(text)
+        return outcome == "ok" and term is not None and project.term(t) == term
+    except BaseException as e:  # noqa
+        return type(e).__name__ == outcome
+
+
 def make_event(text):
     from mathy_core.parser import ExpressionParser
     import signal
@@ -69,10 +93,12 @@ def make_event(text):
             signal.alarm(0)
     except TimeoutError:
         ev["outcome"] = "Timeout"
+        ev["shared_same"] = True
         ev["rep"] = {"outcome": "Timeout", "same": True}
         return ev
     except RecursionError:
         ev["outcome"] = "RecursionError"
+        ev["shared_same"] = True
         ev["rep"] = {"outcome": "RecursionError", "same": True}
         return ev
     except BaseException as e:  # noqa
@@ -81,9 +107,11 @@ def make_event(text):
             ev["rep"].pop("tree")
             ev["rep"]["same"] = False
         ev.setdefault("rep", {"outcome": ev["outcome"], "same": True})
+        ev["shared_same"] = shared_parse_same(text, ev["outcome"], None)
         return ev
     try:
         ev["term"] = project.term(tree)
+        ev["shared_same"] = shared_parse_same(text, ev["outcome"] if "outcome" in ev else "ok", ev["term"])
         if "tree" in ev["rep"]:
             ev["rep"]["same"] = project.term(ev["rep"].pop("tree")) == ev["term"]
         objs = project.ObjTable()
@@ -93,6 +121,7 @@ def make_event(text):
     except BaseException as e:  # noqa  (cyclic / non-expression result)
         ev["outcome"] = "ok"
         ev["rep"] = {"outcome": "ok", "same": True}
+        ev["shared_same"] = True
         ev["term"] = {"k": "other"}
         objs = project.ObjTable()
         ev["h"] = project.snapshot(objs, [tree]) if hasattr(tree, "left") else {"n": 0}
@@ -133,6 +162,8 @@ CURATED = [
     "2(3)", "(2)3", "x!", "(3)!", "2!!", "!", "^", "=", "2 = ", "= 2", "x ^ ^ 2", "sgn", "sgn x", "sgn()", "sgn(x", "abs(x)", "-(-x)", "--x",
     "- - x", "2 - -x", "2--2", "2 - - 2", "4x^2^", "1/0", "x/(y-y)", "0x = 0", "4 + -3", "4 +- 3", "4 -+ 3", "a+b=c+d=e", "2x^(1+1)",
     "x^(y)", "x^y^z", "(x^y)^z", "(2^3)^2", "((x^2)^3)^2", "(x^-2)^y", "3 / -((x + 1) * y)", "x^-((x + 1) * y)", "2 / -((x - 1) / y)", "-((x + 1) * y) / 3",
+    "SGN(x)", "Sgn(2)", "sGn(x) + 1", "2SGN(x^2) = 1", "4 + Sgn(-3y)", "sgN x", "xy^2^3", "2x^2^3", "x^2^3^2", "xyz^2^y", "0.00005x + 1", "0.001 * 0.02", "0.0000004x",
+    "9007199254740993x", "x^9007199254740993", "123456789012345678x^2",
     "(-x)^2", "(2x)^2", "-(3^2)", "-(3^2 * x)", "-(2!)", "4 - -(x * y)", "(x / y) / z", "x / (y / z)", "x / (y * z)", "(x * y) / z", "x - (y - z)", "x - (y + z)", "(x+1)^(y-1)", "2^x y", "xy z^2 w", "3xyz", "-3xyz^2", "1 000", "1,000", "x_1", "x#", "٣", "é + 1",
 ]
 
